@@ -1,16 +1,154 @@
 import OmbottModel.Model.BodyMixin
+import OmbottModel.Lemmas.Body
+import OmbottModel.Lemmas.PyInt
 import OmbottModel.Gen.Body
 /-!
 C04 — Content-Length bodies arrive byte-exact under any read fragmentation.
 Property theorems only; helper lemmas live in `Lemmas/Body.lean`.
+
+`r : Rec` is `wsgi.input` (data still to come, read schedule, offset and call record so far);
+quantifying over `r` quantifies over every body byte string and every read-fragmentation pattern
+(short reads, early EOF = short data).  `buf` is `max_memfile_size` (read buffer and in-memory
+threshold), `cl` the integer Content-Length.
 -/
 namespace Ombott.Body
 open Py
+
+/-- the accumulator `_body_read` returns for a body `b` under threshold `buf`: the bytes, and
+file-backed exactly when longer than the threshold -/
+def bodyOf (buf : Nat) (b : Bytes) : Sink :=
+  { body := b, size := b.length, isTemp := decide (b.length > buf) }
+
+/-- **byte-exact**: whatever the read fragmentation, the buffer size (`> 0`) and the storage
+mode, `_body_read` returns exactly the first `Content-Length` bytes the stream delivers
+(all of them if the stream ends early), provided no size limit is exceeded. -/
+theorem body_exact (buf : Nat) (cl : Int) (max : Option Nat) (r : Rec) (hb : 0 < buf)
+    (hmax : overMax max (min cl.toNat r.st.data.length) = false) :
+    (bodyRead buf cl false max r).1 = .ok (bodyOf buf (r.st.data.take cl.toNat)) := by
+  have h := readParts_within false buf max hb cl.toNat r {} (SinkInv.init buf) (by simpa using hmax)
+  simp only [bodyRead, iterBody, Bool.false_eq_true, if_false]
+  rw [h.2.2]
+  simp only [Bool.false_eq_true, and_false, if_false, Sink.extend, List.nil_append, Nat.zero_add, Bool.false_or, bodyOf]
+  rw [← List.take_eq_take_min]
+
+/-- the stream is left exactly behind the bytes that were taken -/
+theorem body_stream_after (buf : Nat) (cl : Int) (max : Option Nat) (r : Rec) (hb : 0 < buf)
+    (hmax : overMax max (min cl.toNat r.st.data.length) = false) :
+    (bodyRead buf cl false max r).2.st.data = r.st.data.drop cl.toNat ∧
+    (bodyRead buf cl false max r).2.pos = r.pos + min cl.toNat r.st.data.length := by
+  have h := readParts_within false buf max hb cl.toNat r {} (SinkInv.init buf) (by simpa using hmax)
+  simp only [bodyRead, iterBody, Bool.false_eq_true, if_false]
+  refine ⟨?_, h.2.1⟩
+  rw [h.1]
+  by_cases hc : cl.toNat ≤ r.st.data.length
+  · rw [Nat.min_eq_left hc]
+  · rw [Nat.min_eq_right (by omega), List.drop_of_length_le (Nat.le_refl _), List.drop_of_length_le (by omega)]
+
+/-- **never over-read**: every `read(n)` the reader issues is issued at an offset `p` with
+`p + n ≤ Content-Length` (counted from where the body starts), for every buffer size, size limit
+and schedule; in particular the stream offset never passes Content-Length. -/
+theorem body_no_overread (buf : Nat) (cl : Int) (max : Option Nat) (r : Rec) :
+    (∀ e ∈ (bodyRead buf cl false max r).2.log,
+        e ∈ r.log ∨ (r.pos ≤ e.1 ∧ e.1 + e.2 ≤ r.pos + cl.toNat)) ∧
+    (bodyRead buf cl false max r).2.pos ≤ r.pos + cl.toNat := by
+  simp only [bodyRead, iterBody, Bool.false_eq_true, if_false]
+  exact ⟨readParts_log false buf max cl.toNat r {}, (readParts_pos false buf max cl.toNat r {}).2⟩
 
 /-- missing / negative / zero Content-Length: empty body and the stream is not touched -/
 theorem body_neg_cl (buf : Nat) (cl : Int) (max : Option Nat) (r : Rec) (h : cl ≤ 0) :
     bodyRead buf cl false max r = (.ok {}, r) := by
   have : cl.toNat = 0 := by omega
   simp [bodyRead, iterBody, this, readParts]
+
+/-- the degenerate configuration `max_memfile_size = 0`: nothing can be read, the body is empty
+(stated, not hidden: `body_exact` needs `0 < buf`) -/
+theorem body_buf_zero (cl : Int) (max : Option Nat) (r : Rec) :
+    (bodyRead 0 cl false max r).1 = .ok {} := by
+  simp only [bodyRead, iterBody, Bool.false_eq_true, if_false]
+  exact readParts_buf_zero max cl.toNat r {}
+
+/-! ### `Request.body` -/
+
+/-- a request whose body has not been read yet -/
+def Req.fresh (cfg : Cfg) (clHeader teHeader : Option Str) (input : Rec) : Req :=
+  { cfg := cfg, clHeader := clHeader, teHeader := teHeader, input := input }
+
+/-- `Request.body` of a Content-Length request (header = decimal spelling of `n`, no chunked
+transfer coding): exactly the first `n` bytes of the stream, the original stream read no further
+than `n`, whatever the fragmentation; afterwards the buffered copy is cached. -/
+theorem request_body_exact (cfg : Cfg) (n : Nat) (te : Option Str) (input : Rec)
+    (hte : isChunked te = false) (hb : 0 < cfg.memfile)
+    (hmax : overMax cfg.maxBody (min n input.st.data.length) = false) :
+    ((Req.fresh cfg (some (natStr n)) te input).body).1 = .ok (bodyOf cfg.memfile (input.st.data.take n)) ∧
+    ((Req.fresh cfg (some (natStr n)) te input).body).2.cache =
+      some (bodyOf cfg.memfile (input.st.data.take n), 0) ∧
+    ((Req.fresh cfg (some (natStr n)) te input).body).2.input.pos ≤ input.pos + n := by
+  have hcl : contentLength (some (natStr n)) = .ok (n : Int) := by
+    have hne : (natStr n).isEmpty = false := by
+      cases h : natStr n with
+      | nil => exact absurd h (natStr_ne_nil n)
+      | cons _ _ => rfl
+    simp [contentLength, hne, pyInt_natStr]
+  have hex := body_exact cfg.memfile (n : Int) cfg.maxBody input hb (by simpa using hmax)
+  have hpos := (body_no_overread cfg.memfile (n : Int) cfg.maxBody input).2
+  simp only [Int.toNat_natCast] at hex hpos
+  rcases hbr : bodyRead cfg.memfile (n : Int) false cfg.maxBody input with ⟨res, r'⟩
+  rw [hbr] at hex hpos
+  simp only at hex hpos
+  subst hex
+  simp only [Req.body, Req.loadBody, Req.fresh, hcl, hte, hbr]
+  exact ⟨trivial, trivial, hpos⟩
+
+/-- a missing or empty Content-Length header (no chunked coding): empty body, zero reads -/
+theorem request_body_no_cl (cfg : Cfg) (clh te : Option Str) (input : Rec)
+    (hcl : clh = none ∨ clh = some []) (hte : isChunked te = false) :
+    (Req.fresh cfg clh te input).body = (.ok {}, { Req.fresh cfg clh te input with cache := some ({}, 0) }) := by
+  have h : contentLength clh = .ok (-1) := by
+    rcases hcl with rfl | rfl <;> simp [contentLength]
+  simp [Req.body, Req.loadBody, Req.fresh, h, hte, body_neg_cl]
+
+/-- **repeatable**: once the body has been read, every later access (after any partial reads of
+the buffered copy) returns the same buffered body, rewound to offset 0, and does not touch the
+original stream again. -/
+theorem body_repeatable (q : Req) (sk : Sink) (p : Nat) (h : q.cache = some (sk, p)) :
+    q.body = (.ok sk, { q with cache := some (sk, 0) }) := by
+  simp [Req.body, Req.loadBody, h]
+
+/-- a successful first access leaves the buffered copy in the cache (so `body_repeatable`
+applies to everything that follows), and reading it returns the body from offset 0 -/
+theorem body_cached_after (q q1 : Req) (sk : Sink) (h : q.body = (.ok sk, q1)) :
+    q1.cache = some (sk, 0) ∧ ∃ q2, q1.readCached none = some (sk.body, q2) ∧
+      q2.input = q1.input ∧ ∃ p, q2.cache = some (sk, p) := by
+  unfold Req.body at h
+  split at h
+  · cases h
+  · rename_i sk' q' _
+    simp only [Prod.mk.injEq, Except.ok.injEq] at h
+    obtain ⟨rfl, rfl⟩ := h
+    refine ⟨rfl, { q' with cache := some (sk', 0 + sk'.body.length) }, ?_, rfl, _, rfl⟩
+    simp [Req.readCached]
+
+/-- reads of the buffered copy never touch the original stream and keep the buffered body -/
+theorem readCached_keeps (q q' : Req) (n : Option Nat) (d : Bytes) (h : q.readCached n = some (d, q')) :
+    q'.input = q.input ∧ ∃ sk p p', q.cache = some (sk, p) ∧ q'.cache = some (sk, p') := by
+  unfold Req.readCached at h
+  split at h
+  · cases h
+  · rename_i sk pos hc
+    simp only [Option.some.injEq, Prod.mk.injEq] at h
+    obtain ⟨-, rfl⟩ := h
+    exact ⟨rfl, sk, pos, _, hc, rfl⟩
+
+section NonVacuity
+/-- `body_exact`, `request_body_exact`: a 5-byte stream delivered 1,2,… bytes at a time, Content-Length 3, buffer 2 -/
+example : (0 : Nat) < 2 ∧ overMax none (min (3 : Int).toNat ([1, 2, 3, 4, 5] : Bytes).length) = false := by decide
+example : isChunked (some "identity".toList) = false := by decide
+example : isChunked (some "gzip, Chunked".toList) = true := by decide
+/-- `body_neg_cl` -/
+example : ((-1 : Int) ≤ 0) := by decide
+/-- `body_repeatable`: a cached body with a moved file position -/
+example : ({ cfg := ⟨none, 4, []⟩, clHeader := none, teHeader := none, input := { st := ⟨[], []⟩ },
+             cache := some (bodyOf 4 [1, 2, 3], 2) } : Req).cache = some (bodyOf 4 [1, 2, 3], 2) := rfl
+end NonVacuity
 
 end Ombott.Body
